@@ -94,6 +94,9 @@ func solve(o *obligation, outDir string, timeoutS int, all bool) {
 	if o.expect == "sat" && timeoutS > 4 {
 		timeoutS = 4 // cover checks: a quick satisfiability probe
 	}
+	if o.quickOnly && timeoutS > 6 {
+		timeoutS = 6 // known findings: only checked for "now discharges"
+	}
 	script := o.script()
 	if len(script) > 4<<20 {
 		o.status, o.solver = "unknown", "vc-too-large"
